@@ -341,7 +341,7 @@ def _pagination(ix, driver, i, op, res):
                             "pure": True}
     elif op is not None and st is not None and op["op"] not in PAGE_INSERTIONS and op["op"] != "Paginate":
         st["pure"] = False      # C09 quantifies over page insertions between calls, nothing else
-    if op is not None and op["op"] in ("Clear", "Recreate"):
+    if op is not None and op["op"] in ("Clear", "Recreate", "ClearKeep"):
         st = ix.pagstate = None
     if st is not None:
         wp, e = guarded(lambda: [(p["lru"], bool(p["crawled"])) for p in t.get_webentity_pages(st["id"], st["ps"])])
@@ -373,7 +373,7 @@ def _paglinks(ix, driver, i, op, res):
         st = ix.plstate = {"key": (op["id"], list(op["ps"]), op["int"], op["out"]), "sofar": [], "quiet": True}
     elif op is not None and st is not None and op["op"] not in READ_ONLY_OPS:
         st["quiet"] = False
-    if op is not None and op["op"] in ("Clear", "Recreate"):
+    if op is not None and op["op"] in ("Clear", "Recreate", "ClearKeep"):
         st = ix.plstate = None
     if st is not None and op is not None and op["op"] == "PagLinks" and \
             (op["id"], list(op["ps"]), op["int"], op["out"]) == st["key"]:
